@@ -77,6 +77,17 @@ M = [
     ("cambridge-voter-types-from-other-blocs-cohesion", "votekit/ballot_generator.py",
      "        cohesion_parameters = {b: self.cohesion_parameters[b][b] for b in self.blocs}\n\n        # compute the number of bloc and crossover voters in each bloc using Huntington Hill\n        voter_types = [\n            (b, t) for b in list(self.bloc_voter_prop.keys()) for t in [\"bloc\", \"cross\"]",
      "        cohesion_parameters = {b: self.cohesion_parameters[o][o] for b, o in zip(self.blocs, self.blocs[::-1])}\n\n        # compute the number of bloc and crossover voters in each bloc using Huntington Hill\n        voter_types = [\n            (b, t) for b in list(self.bloc_voter_prop.keys()) for t in [\"bloc\", \"cross\"]", ["C14"]),
+    ("profile-cast-candidates-count-zero-weight-ballots", "votekit/pref_profile.py",
+     "            if ballot.weight > 0:", "            if ballot.weight >= 0:", ["C11"]),
+    ("slate-pl-patterns-from-first-blocs-cohesion", "votekit/ballot_generator.py",
+     "                cohesion_parameters_for_bloc=self.cohesion_parameters[bloc],",
+     "                cohesion_parameters_for_bloc=self.cohesion_parameters[self.blocs[0]],", ["C16"]),
+    ("ranking-dict-keys-flatten-tied-positions", "votekit/pref_profile.py",
+     "            if not ranking:\n                ranking = (frozenset(),)\n            if standardize:",
+     "            if not ranking:\n                ranking = (frozenset(),)\n            ranking = tuple(frozenset([c]) for s_ in ranking for c in sorted(s_, key=str))\n            if standardize:", ["C19"]),
+    ("irv-forwards-hare-when-quota-left-at-default", "votekit/elections/election_types/ranking/stv.py",
+     "        super().__init__(profile, m=1, quota=quota, tiebreak=tiebreak)",
+     "        super().__init__(profile, m=1, quota=quota if quota != \"droop\" else \"hare\", tiebreak=tiebreak)", ["C13"]),
     ("load-csv-dropna", "votekit/cvr_loaders.py", "df.groupby(ranks, dropna=False)", "df.groupby(ranks, dropna=True)", ["C18"]),
     ("lp-root-omitted", "votekit/metrics/distances.py", "lp_dist = sum ** (1 / p_value)", "lp_dist = sum", ["C19"]),
     ("stv-m-bound-off-by-one", "votekit/elections/election_types/ranking/stv.py",
